@@ -119,18 +119,37 @@ pub fn check_history(bits: usize, nsets: usize, ops: &[SetOp]) -> Check {
         let env = Rc::new(BDDEnv::<usize>::new());
         let mut imp: Vec<BDDSet> = (0..nsets).map(|_| BDDSet::with_env(bits, &env)).collect();
         let mut reference: Vec<BTreeSet<usize>> = vec![BTreeSet::new(); nsets];
+        // Query order matters for history-dependent defects (a cached last answer, say): every round
+        // starts by repeating the very last query made before the operation, then scans the elements
+        // from a rotating start, ascending in one round and descending in the next.
+        let last_query: std::cell::Cell<Option<(usize, usize)>> = std::cell::Cell::new(None);
+        let round_no: std::cell::Cell<usize> = std::cell::Cell::new(0);
         let ask = |imp: &Vec<BDDSet>, reference: &Vec<BTreeSet<usize>>, which: &[usize], after: &str| -> Check {
+            let n = 1usize << bits;
+            let one = |s: usize, x: usize, round: usize| -> Check {
+                let got = imp[s].contains(x);
+                last_query.set(Some((s, x)));
+                let want = reference[s].contains(&x);
+                if got != want {
+                    return Err(v(format!(
+                        "after {}: set {} contains({}) = {} but the reference set {:?} says {} (query round {})",
+                        after, s, x, got, reference[s], want, round + 1
+                    )));
+                }
+                Ok(())
+            };
+            if let Some((s, x)) = last_query.get() {
+                if s < imp.len() {
+                    one(s, x, 0)?;
+                }
+            }
             for round in 0..2 {
+                let k = round_no.get();
+                round_no.set(k + 1);
                 for &s in which {
-                    for x in 0..(1usize << bits) {
-                        let got = imp[s].contains(x);
-                        let want = reference[s].contains(&x);
-                        if got != want {
-                            return Err(v(format!(
-                                "after {}: set {} contains({}) = {} but the reference set {:?} says {} (query round {})",
-                                after, s, x, got, reference[s], want, round + 1
-                            )));
-                        }
+                    for i in 0..n {
+                        let x = if k % 2 == 0 { (i + k) % n } else { (n - 1 - i + k) % n };
+                        one(s, x, round)?;
                     }
                 }
             }
@@ -242,7 +261,7 @@ fn reachable_paths(bits: usize, nsets: usize, max_depth: usize) -> Vec<Vec<SetOp
 pub fn run(ctx: &mut Ctx) -> Result<(), Violation> {
     ctx.rule = "model-based: two (random stage: three) BDDSets sharing one environment against BTreeSet<usize> references. Exhaustive: for bits b in {1,2} breadth-first over EVERY reachable pair of reference states (4x4 resp. 16x16), \
                 the implementation state rebuilt by replaying a shortest operation path, then every next operation (insert(x) on either set, union/intersect/complement with operands (A,B),(B,A),(A,A),(B,B), empty, universe); \
-                after every operation all membership queries of all sets are asked twice and compared. Random: histories of <= 40 operations for b <= 3 and three sets, including replacing a set by from_element(x). \
+                after every operation the last query made before it is repeated first, then all membership queries of all sets are asked twice (rotating start, alternating direction) and compared. Random: histories of <= 40 operations for b <= 3 and three sets, including replacing a set by from_element(x). \
                 Non-trivial = history of >= 2 operations containing a binary set operation; distinct by operation list."
         .to_string();
     ctx.assume("elements are b-bit integers (0..2^b); all sets of a history share one environment");
